@@ -407,10 +407,11 @@ func parseProxyHeader(b []byte) (parsedHdr, error) {
 
 // upstream is a harness server that records everything it receives per connection.
 type upstream struct {
-	ln   net.Listener
-	mu   sync.Mutex
-	got  [][]byte
-	done chan struct{}
+	ln     net.Listener
+	mu     sync.Mutex
+	got    [][]byte
+	done   chan struct{}
+	before int
 }
 
 func newUpstream(t hx.TB) *upstream {
@@ -441,13 +442,37 @@ func newUpstream(t hx.TB) *upstream {
 type sendCase struct {
 	Version  string
 	V6       bool
+	skipHandle bool
 	Payload  int
 	Cuts     []int
 	Via      *hdrSpec // a proxy_protocol handler received this header first (composition)
 	PreMatch int      // bytes a matcher inspects before the proxy handler runs
+	Peers    int      // dial addresses of the one upstream (every peer must get its own header)
 }
 
-func runSend(t hx.TB, up *upstream, sc sendCase) {
+func runSend(t hx.TB, ups []*upstream, sc sendCase) {
+	if sc.Peers < 1 {
+		sc.Peers = 1
+	}
+	for _, up := range ups[:sc.Peers] {
+		if !runSendPeer(t, ups[:sc.Peers], up, sc) {
+			return
+		}
+		sc.skipHandle = true
+	}
+	nontrivial := sc.Via != nil || sc.PreMatch > 0 || len(sc.Cuts) > 0 || sc.Peers > 1
+	cl := []string{"C12/send", "C12/send/" + sc.Version, fmt.Sprintf("C12/send-peers/%d", sc.Peers)}
+	if sc.Via != nil {
+		cl = append(cl, "C12/composition")
+	}
+	hx.Case(hx.Hash("send", fmt.Sprintf("%+v", sc)), nontrivial, cl...)
+	if nontrivial {
+		hx.Sample("send/"+sc.Version+fmt.Sprint(sc.Peers), map[string]any{"version": sc.Version, "v6": sc.V6, "payload": sc.Payload, "composition": sc.Via != nil, "peers": sc.Peers})
+	}
+}
+
+// runSendPeer drives the proxy once (unless already done for this case) and judges what peer `up` received.
+func runSendPeer(t hx.TB, all []*upstream, up *upstream, sc sendCase) bool {
 	payload := hx.Stream(uint64(sc.Payload)+11, sc.Payload)
 	stream := payload
 	if sc.Via != nil {
@@ -463,7 +488,11 @@ func runSend(t hx.TB, up *upstream, sc sendCase) {
 	if sc.Via != nil {
 		handlers = append(handlers, rx.H("proxy_protocol"))
 	}
-	handlers = append(handlers, rx.H("proxy", "proxy_protocol", sc.Version, "upstreams", []map[string]any{{"dial": []string{up.ln.Addr().String()}}}))
+	var dials []string
+	for _, u := range all {
+		dials = append(dials, u.ln.Addr().String())
+	}
+	handlers = append(handlers, rx.H("proxy", "proxy_protocol", sc.Version, "upstreams", []map[string]any{{"dial": dials}}))
 	route := rx.R{Handle: handlers}
 	if sc.PreMatch > 0 && sc.PreMatch <= len(stream) {
 		route.Match = []map[string]any{rx.M("regexp", map[string]any{"pattern": "(?s).", "count": sc.PreMatch})}
@@ -476,17 +505,24 @@ func runSend(t hx.TB, up *upstream, sc sendCase) {
 	under := hx.NewScriptConn(hx.Split(stream, sc.Cuts), hx.EndEOF)
 	under.Remote, under.Local = realRemote, realLocal
 	cx := layer4.WrapConnection(under, make([]byte, 0, layer4.VerifPrefetchChunkSize), zap.NewNop())
-	up.mu.Lock()
-	before := len(up.got)
-	up.mu.Unlock()
-	herr := h.Handle(cx)
-	select {
-	case <-up.done:
-	case <-time.After(5 * time.Second):
+	var herr error
+	if !sc.skipHandle {
+		for _, u := range all {
+			u.mu.Lock()
+			u.before = len(u.got)
+			u.mu.Unlock()
+		}
+		herr = h.Handle(cx)
+		for _, u := range all {
+			select {
+			case <-u.done:
+			case <-time.After(5 * time.Second):
+			}
+		}
 	}
 	up.mu.Lock()
 	var got []byte
-	n := len(up.got) - before
+	n := len(up.got) - up.before
 	if n > 0 {
 		got = up.got[len(up.got)-1]
 	}
@@ -494,12 +530,12 @@ func runSend(t hx.TB, up *upstream, sc sendCase) {
 	desc := fmt.Sprintf("  send %s, v6=%v, payload %d, cuts %v, via=%v, prematch=%d; handle error %v; upstream got %d bytes: % x...", sc.Version, sc.V6, sc.Payload, sc.Cuts, sc.Via != nil, sc.PreMatch, herr, len(got), got[:min(len(got), 60)])
 	if herr != nil || n != 1 {
 		hx.Fail(t, "C12", "send-failed", "proxying failed (err=%v, upstream connections=%d)\n%s", herr, n, desc)
-		return
+		return false
 	}
 	ph, err := parseProxyHeader(got)
 	if err != nil {
 		hx.Fail(t, "C12", "sent-header-malformed", "the upstream did not receive a well-formed PROXY header: %v\n%s", err, desc)
-		return
+		return false
 	}
 	wantV := 1
 	if sc.Version == "v2" {
@@ -507,7 +543,7 @@ func runSend(t hx.TB, up *upstream, sc sendCase) {
 	}
 	if ph.Version != wantV {
 		hx.Fail(t, "C12", "sent-header-version", "configured %s but a v%d header was sent\n%s", sc.Version, ph.Version, desc)
-		return
+		return false
 	}
 	wantSrc, wantDst := unmap(realRemote.AddrPort()), unmap(realLocal.AddrPort())
 	if sc.Via != nil && sc.Via.declares() {
@@ -516,25 +552,17 @@ func runSend(t hx.TB, up *upstream, sc sendCase) {
 	wantUDP := sc.Via != nil && strings.HasPrefix(sc.Via.Kind, "UDP")
 	if ph.UDP != wantUDP {
 		hx.Fail(t, "C12", "sent-header-transport", "the sent header says datagram=%v, the effective addresses are datagram=%v\n%s", ph.UDP, wantUDP, desc)
-		return
+		return false
 	}
 	if ph.Src != wantSrc || ph.Dst != wantDst {
 		hx.Fail(t, "C12", "sent-header-addresses", "the sent header carries %s -> %s, the client's effective addresses are %s -> %s\n%s", ph.Src, ph.Dst, wantSrc, wantDst, desc)
-		return
+		return false
 	}
 	if rest := got[ph.Len:]; !bytes.Equal(rest, payload) {
 		hx.Fail(t, "C12", "sent-stream", "after the header the upstream received %d bytes, want the client's %d-byte stream (first difference at %d; a second header?)\n%s", len(rest), len(payload), hx.FirstDiff(rest, payload), desc)
-		return
+		return false
 	}
-	nontrivial := sc.Via != nil || sc.PreMatch > 0 || len(sc.Cuts) > 0
-	cl := []string{"C12/send", "C12/send/" + sc.Version}
-	if sc.Via != nil {
-		cl = append(cl, "C12/composition")
-	}
-	hx.Case(hx.Hash("send", fmt.Sprintf("%+v", sc)), nontrivial, cl...)
-	if nontrivial {
-		hx.Sample("send/"+sc.Version, map[string]any{"version": sc.Version, "v6": sc.V6, "payload": sc.Payload, "composition": sc.Via != nil, "sent_src": ph.Src, "sent_dst": ph.Dst})
-	}
+	return true
 }
 
 func unmap(ap netip.AddrPort) string {
@@ -542,10 +570,12 @@ func unmap(ap netip.AddrPort) string {
 }
 
 func TestSend(t *testing.T) {
-	up := newUpstream(t)
-	defer up.ln.Close()
+	ups := []*upstream{newUpstream(t), newUpstream(t), newUpstream(t)}
+	for _, u := range ups {
+		defer u.ln.Close()
+	}
 	rapid.Check(t, func(rt *rapid.T) {
-		sc := sendCase{Version: []string{"v1", "v2"}[rapid.IntRange(0, 1).Draw(rt, "version")], V6: rapid.Bool().Draw(rt, "v6")}
+		sc := sendCase{Version: []string{"v1", "v2"}[rapid.IntRange(0, 1).Draw(rt, "version")], V6: rapid.Bool().Draw(rt, "v6"), Peers: rapid.IntRange(1, 3).Draw(rt, "peers")}
 		sc.Payload = rapid.IntRange(0, 9000).Draw(rt, "payload")
 		if rapid.Bool().Draw(rt, "composition") {
 			h := genHdr(rt)
@@ -570,6 +600,6 @@ func TestSend(t *testing.T) {
 		if sc.Via == nil && rapid.Bool().Draw(rt, "prematch") {
 			sc.PreMatch = rapid.IntRange(1, max(1, min(total, 5000))).Draw(rt, "prematchDepth")
 		}
-		runSend(rt, up, sc)
+		runSend(rt, ups, sc)
 	})
 }
